@@ -12,6 +12,10 @@ def interleave : List Bytes → List Bytes → Bytes
   | g :: _, [] => g
   | g :: gs, f :: fs => g ++ (f ++ interleave gs fs)
 
+theorem interleave_head (g : Bytes) (l fr : List Bytes) :
+    interleave (g :: l) fr = g ++ interleave ([] :: l) fr := by
+  cases fr <;> simp [interleave]
+
 /-- the message `decode` returns on the frame alone -/
 def msgOf (bs : Bytes) (tbl : Tbl) (f : Bytes) : Msg :=
   match decode bs tbl f with
